@@ -62,6 +62,10 @@ func runC11(p *chk.Prog, r *chk.Report) {
 	releaseOnExitRule(p, r)
 	// a reconfiguration releases exactly the allocations no pool owns any more (REHOME, shared with C03)
 	c03Rehome(p, r)
+	unassignCompleteRule(p, r)
+	// a request refused after its addresses were assigned gives them back (REQUEST-IPS, shared with C02): the pool
+	// counters otherwise include an address no Service holds
+	c02Requests(p, r)
 }
 
 var allocMaps = []string{"allocated", "sharingKeyForIP", "portsInUse", "servicesOnIP", "poolIPsInUse", "poolIPV4InUse", "poolIPV6InUse"}
@@ -550,4 +554,25 @@ func c11Stats(p *chk.Prog, r *chk.Report) {
 		}
 		y.Check("CountersForPool:source", cf.Pos(), ok, "", "CountersForPool does not return the stored counters of the named pool")
 	}
+}
+
+// unassignCompleteRule (shared by C07 and C11): once Unassign has forgotten the allocation record, nothing may leave the
+// function before the per-address bookkeeping ran - whatever became of the pool.
+func unassignCompleteRule(p *chk.Prog, r *chk.Report) {
+	x := r.Rule("UNASSIGN-COMPLETE", "B path", "in (*Allocator).Unassign every path from delete(a.allocated, svc) to the end of the function passes the loop over the released allocation's addresses (tenants, ports, sharing key and in-use counters are released even when the pool no longer exists)", 1)
+	un := need(x, p, allocPkg, "Allocator", "Unassign")
+	if un == nil {
+		return
+	}
+	g := un.Graph()
+	usvc := isParamIdx(un, 0)
+	ual := definedBy(g, "RECV.allocated[S]", chk.H("S", usvc))
+	loops := un.RangeLoops(func(e ast.Expr) bool { return un.MatchWith("AL.ips", e, chk.H("AL", ual)) != nil })
+	dels := g.FindPat("delete(RECV.allocated, S)", chk.H("S", usvc))
+	if len(loops) != 1 || len(dels) != 1 {
+		x.Fail("Unassign:shape", un.Pos(), "expected one delete(a.allocated, svc) and one loop over the allocation's addresses")
+		return
+	}
+	w := g.MustPass(dels[0], nil, true, func(n ast.Node) bool { return n == ast.Node(loops[0].X) })
+	x.Check("Unassign:bookkeeping-on-every-path", posOf(w, un), !w.Found, "", "Unassign can return after forgetting the allocation without releasing its addresses' tenants, ports and sharing keys (ghost entries: the addresses stay unusable for every other Service)")
 }
